@@ -1,6 +1,6 @@
 #!/bin/sh
 # runs the repository's pinned baseline with the verif guard OFF (no -tags verif); command taken from /root/.vp/BASELINE.json
-set -e
+
 if [ -f /w/out/gomods.txt ]; then
   for m in $(cat /w/out/gomods.txt); do MF=$(cd /repo/$m && . /w/out/goenv.sh && gomodflag); (cd /repo/$m && go test $MF -json -vet=off -count=1 -timeout 25m ./...); done
 else
